@@ -17,7 +17,7 @@ import os
 import re
 
 from .. import build, engines
-from ..run import run as sh, pmap, Scratch
+from ..run import run as sh, pmap, Scratch, ASAN_ENV
 
 LEVEL = "fault_enumeration"
 
@@ -232,16 +232,14 @@ def san_report(r):
 
 # the native runtime reports an index error through assert() -> abort(): with handle_abort=1 ASan would dress the
 # SIGABRT up as an "AddressSanitizer: ABRT" report; here the process is simply left to die from the signal
-from ..run import ASAN_ENV
 NATIVE_ENV = {"ASAN_OPTIONS": ASAN_ENV["ASAN_OPTIONS"].replace("handle_abort=1", "handle_abort=0")}
 
 
 class Out:
-    __slots__ = ("cell", "status", "lines", "rc", "sig", "san", "timeout", "skip", "stderr", "binary", "text", "src")
+    __slots__ = ("cell", "lines", "rc", "sig", "san", "timeout", "skip", "stderr", "binary", "text", "src")
 
     def __init__(self, cell):
         self.cell = cell
-        self.status = None
         self.lines = []
         self.rc = self.sig = None
         self.san = None
@@ -328,10 +326,11 @@ def judge(o):
         got = [l for l in section(o.lines, "C08:VALUE", "C08:AFTER")]
         if got != exp:
             return "control-failed:value", "expected %r got %r" % (exp, got)
+        if setup_ok(o) is not True:
+            return "control-failed:setup", ""
         if c.engine == "eval" and not o.binary:
             return "control-failed:no-binary", ""
         return "ok", ""
-    # the index must have arrived as written and the pre-pops must have been in range (where stdout survived)
     if o.san:
         return "sanitizer", o.san[:600]
     if has_after:
@@ -597,6 +596,7 @@ def run(ctx):
             results[o.cell.ident()] = o
 
         hist = {}
+        nonstop = {}              # every cell that was not stopped, by violation key (known or not)
         ctl_hist = {}
         skipped = {}
         evaluated = {e: 0 for e in ENGINES}
@@ -644,6 +644,8 @@ def run(ctx):
                 reason = None
                 if o.skip:
                     reason = o.skip
+                    if reason.endswith("timeout"):
+                        timeouts += 1
                 elif o.timeout:
                     reason = "timeout"
                     timeouts += 1
@@ -678,7 +680,9 @@ def run(ctx):
                          "cmd.txt": {"vm": "nano_virt main.nano --run", "nano_vm": "nano_virt main.nano --emit-nvm -o main.nvm && nano_vm main.nvm",
                                      "native": "nanoc main.nano -o main.bin && ./main.bin   # asan flavor, NANO_CC=tools/fastcc",
                                      "eval": "nanoc main.nano -o main.bin --verbose   # must fail and write no binary"}[eng] + "\n"}
-                ctx.violation(key_for(c, verdict), what, files)
+                key = key_for(c, verdict)
+                nonstop[key] = nonstop.get(key, 0) + 1
+                ctx.violation(key, what, files)
 
         # ---- assembler level ----------------------------------------------------------------------
         acells = asm_cells()
@@ -707,6 +711,7 @@ def run(ctx):
                 hk = "asm|%s|%s|%s|%s" % (runner, op, cls, v)
                 asm_hist[hk] = asm_hist.get(hk, 0) + 1
                 if v != "stopped":
+                    nonstop["asm|%s|%s|%s|%s" % (runner, op, cls, v)] = nonstop.get("asm|%s|%s|%s|%s" % (runner, op, cls, v), 0) + 1
                     ctx.violation("asm|%s|%s|%s|%s" % (runner, op, cls, v),
                                   "%s %d on an object with %d field(s) is not stopped (%s, %s): %s\nrc=%s sig=%s\n%s\n%s" % (
                                       op, k, count, runner, "verifier skipped" if runner == "probe" else "verifier on", v,
@@ -780,6 +785,7 @@ def run(ctx):
             "fault_cells_evaluated": evaluated,
             "controls": {e: "%d/%d passed" % (controls_ok[e], controls_all[e]) for e in ENGINES},
             "outcomes": dict(sorted(hist.items())),
+            "not_stopped_by_key": dict(sorted(nonstop.items())),
             "control_outcomes": dict(sorted((k, v) for k, v in ctl_hist.items() if not k.endswith("|ok"))),
             "skipped": dict(sorted(skipped.items())),
             "asm_cells_evaluated": asm_eval,
